@@ -1,6 +1,6 @@
 """C02 rings grouped into a valid polygon set (partly decided: transition of coincident twins, parent table and
 hole/parent pairing, polygon assembly, prev_in_result table)."""
-from rules import booltables as bt, cerules, oprules, walkrules
+from rules import booltables as bt, cerules, oprules, walkrules, orderrules
 
 LEVEL = 'other'
 EXPLANATION = __doc__
@@ -17,3 +17,4 @@ def run(ctx, rep):
     walkrules.check_walk(ctx, rep)
     walkrules.check_next_pos(ctx, rep)
     walkrules.check_mark(ctx, rep)
+    orderrules.check_order_events(ctx, rep, rule='T-walk-order')
